@@ -46,6 +46,32 @@ def rule_dense_stride(mod, rep, patterns=("?gstrs", "?gsrfs", "p?gssvx")):
                     for m_ in muls:
                         if not any(_is_lda_load(f, o, k) for o in m_.ops):
                             bad.append(g)
+                # loops over B / X that were moved into a static helper: the helper's stride parameter has to receive this matrix's lda
+                for c in f.calls():
+                    h = mod.funcs.get(c.callee or "")
+                    if h is None or not h.internal:
+                        continue
+                    for k2, o in enumerate(c.ops[:len(h.params)]):
+                        if not (f.is_ptr(o) and any(p[0] == ("A", k) and len(p) >= 5 and p[3][0] == "f" and p[3][2] == "nzval" and p[-1] == ("*",) for p in f.paths(o))):
+                            continue
+                        for g in h.insts():
+                            if g.op != "getelementptr" or not any(p == (("A", k2),) for p in h.paths(g.ops[0])):
+                                continue
+                            idx = gep_index(h, ["v", g.i])
+                            if idx is None:
+                                continue
+                            muls = [x for x in expr_insts(h, idx, through_loads=False) if x.op == "mul"]
+                            if not muls:
+                                continue
+                            n += 1
+                            for m_ in muls:
+                                ok_m = False
+                                for oo in m_.ops:
+                                    oo = strip_casts(h, oo)
+                                    if oo[0] == "a" and oo[1] < len(c.ops) and _is_lda_load(f, c.ops[oo[1]], k):
+                                        ok_m = True
+                                if not ok_m:
+                                    bad.append(c)
                 rep.check(not bad, "STRIDE", "%s#%s" % (f.name, prm["name"]), "%d strided addresses into %s use %s's lda" % (n, prm["name"], prm["name"]),
                           "%s is addressed with a column stride that is not its leading dimension" % prm["name"], bad[0].loc if bad else f.file, f.name)
 
